@@ -57,6 +57,16 @@ CHECKS["C16"] = dict(
          "order after connecting; send before open / after close raises NotOpenError and holds nothing.",
     technique="explicit-state BFS over operation histories against a reference list model")
 
+CHECKS["C08"] = dict(
+    level="model_checking", design="DESIGN.md §6 C08",
+    text="Every answer pattern over N heartbeats (quick 2, thorough 3-4) where each version request is answered now, at "
+         "request+30-eps/+30/+30+eps, just before the next heartbeat, just before/at the model deadline, or never; plus "
+         "unsolicited version messages, status and non-version extended frames (must not count) and link loss; on the full "
+         "AirTouch4/5 objects (300/330 s) and on HeartbeatManager with (10,15) and (10,10.5). Timed monitor: requests exactly "
+         "on the interval grid while connected; a client close + reconnect exactly when (now - max(start, last response, last "
+         "expiry)) reaches the timeout; no client-initiated close otherwise.",
+    technique="explicit-state BFS over real executions with clock-region corners against a timed reference monitor")
+
 NOT_YET = {}
 
 
